@@ -1156,7 +1156,21 @@ impl Server {
         
         // Execute commands
         let mut results = Vec::new();
+        let mut db_index = db_index;
         for cmd_parts in commands_to_execute.iter() {
+            // SELECT needs the connection: it switches the database for the rest of the
+            // transaction and for the connection afterwards
+            let is_select = matches!(cmd_parts.first(), Some(RespFrame::BulkString(Some(name)))
+                if String::from_utf8_lossy(name).to_uppercase() == "SELECT");
+            if is_select {
+                let response = self.handle_select(cmd_parts, conn_id)?;
+                if let Some(db) = self.connections.with_connection(conn_id, |conn| conn.db_index) {
+                    db_index = db;
+                }
+                results.push(response);
+                continue;
+            }
+            
             match self.process_command_parts(&cmd_parts, db_index) {
                 Ok(response) => results.push(response),
                 Err(e) => {
